@@ -30,6 +30,14 @@ GLOBAL_ASSUMPTIONS = [
 
 
 def load_spec(prop):
+    import sys as _sys
+    for dep in ("polycommon",):
+        dp = os.path.join(VERIF, "specs", dep + ".py")
+        if os.path.exists(dp) and ("specs_" + dep) not in _sys.modules:
+            sp = importlib.util.spec_from_file_location("specs_" + dep, dp)
+            m = importlib.util.module_from_spec(sp)
+            _sys.modules["specs_" + dep] = m
+            sp.loader.exec_module(m)
     path = os.path.join(VERIF, "specs", prop + ".py")
     spec = importlib.util.spec_from_file_location("specs_" + prop, path)
     mod = importlib.util.module_from_spec(spec)
